@@ -98,7 +98,6 @@ Fixpoint assoc_str {A} (k : str) (l : list (str * A)) : option A :=
 Definition canon_of (urls : list (str * option str)) (d : str) : option str :=
   match assoc_str d urls with Some r => r | None => None end.
 Definition glob_of (bad : list str) (p : str) : bool := negb (existsb (beq p) bad).
-Definition ascii_print (r : N) : bool := true.    (* the generated tags are ASCII: IsPrint is never asked *)
 
 Definition tgt_cmp (a b : tgt) : comparison :=
   match a, b with
@@ -124,14 +123,24 @@ Definition inst_healthy_b (status : list str) (strict : bool) (checks : list hch
   && existsb (fun c => is_service_check c && beq (c_sname c) (g_name (r_reg r))
                        && own_b (r_node r) (g_id (r_reg r)) c) checks
   && healthy_b checks status strict (r_node r) (g_id (r_reg r)).
-Definition expected_targets (canon : str -> option str) (env : env_t) (prefix : str)
+(* C01_svc_table_iff's right-hand side, for ALL catalogs: the targets of the routed intents
+   (healthy named instance, advertised prefix, command accepted by NewTable on its own), as the
+   parsed command says them *)
+Definition expected_targets (pw : str -> outcome wt) (canon : str -> option str) (gl : str -> bool)
+           (env : env_t) (prefix : str)
            (status : list str) (strict : bool) (checks : list hcheck) (rcat : list rentry) : tbl :=
   flat_map (fun r =>
     if inst_healthy_b status strict checks r then
-      flat_map (fun i => match canon (i_dst i) with
-                         | Some u => [(lower (fst (hostpath (i_route i))), snd (hostpath (i_route i)), g_name (r_reg r), u)]
-                         | None => []
-                         end) (intents env prefix (r_reg r))
+      flat_map (fun i =>
+        if validate pw canon gl (render_intent i) then
+          match parse_line pw (render_intent i) with
+          | Ok (Some d) => match canon (d_dst d) with
+                           | Some u => [(lower (fst (hostpath (d_src d))), snd (hostpath (d_src d)), d_svc d, u)]
+                           | None => []
+                           end
+          | _ => []
+          end
+        else []) (intents env prefix (r_reg r))
     else []) rcat.
 
 Inductive case :=
@@ -208,19 +217,18 @@ Definition check_case (c : case) : N :=
   | CE2E env prefix urls bad status strict checks rcat itext itbl =>
       let canon := canon_of urls in
       let gl := glob_of bad in
-      let mtext := registry_config ascii_print env prefix status strict checks rcat in
+      let mtext := registry_config pweight_dec canon gl env prefix status strict checks rcat in
       let mtbl := match mtext with
                   | Ok t => match new_table pweight_dec canon gl t with Ok tb => Some (obs_table tb) | _ => None end
                   | _ => None
                   end in
       let same := match mtext with Ok t => beq t itext | _ => false end && opt_eqb tbl_eqb itbl mtbl in
-      let on_domain := forallb (fun r => negb (inst_healthy_b status strict checks r)
-                                         || expressible ascii_print pweight_dec canon gl env prefix (r_reg r)) rcat in
-      let exp := expected_targets canon env prefix status strict checks rcat in
-      (* C01_svc_table_iff, evaluated on the implementation's table *)
-      let spec := if on_domain
-                  then match itbl with Some t => tbl_subset t exp && tbl_subset exp t | None => false end
-                  else same in
-      verdict same spec None (on_domain && negb (Nat.eqb (length exp) 0)
-                                && existsb (fun r => negb (inst_healthy_b status strict checks r)) rcat)
+      let exp := expected_targets pweight_dec canon gl env prefix status strict checks rcat in
+      (* C01_svc_table_iff, evaluated on the implementation's table: accepted, and exactly the
+         routed intents' targets - whatever the catalog *)
+      let spec := match itbl with Some t => tbl_subset t exp && tbl_subset exp t | None => false end in
+      let some_dropped := existsb (fun r => existsb (fun i => negb (validate pweight_dec canon gl (render_intent i)))
+                                                    (intents env prefix (r_reg r))) rcat in
+      verdict same spec None (negb (Nat.eqb (length exp) 0)
+                              && (existsb (fun r => negb (inst_healthy_b status strict checks r)) rcat || some_dropped))
   end.
